@@ -27,6 +27,13 @@ Theorem C04_spec_minimises p q (M : nat -> nat -> R) (b y z : nat -> R) :
   normal_eq p q M b y -> (nrm2 p (resid q M b y) <= nrm2 p (resid q M b z))%R.
 Proof. exact (normal_equations_minimise p q M b y z). Qed.
 
+(* the residual history never increases: each cycle minimises over a space that contains the previous iterate (restart: q = 0, the
+   right-hand side of the cycle is the previous residual) and, inside a cycle, the Krylov bases are nested *)
+Theorem C04_history_never_increases p q q' (M M' : nat -> nat -> R) (b y y' : nat -> R) :
+  (q <= q')%nat -> (forall i j, (j < q)%nat -> M' i j = M i j) ->
+  normal_eq p q' M' b y' -> (nrm2 p (resid q' M' b y') <= nrm2 p (resid q M b y))%R.
+Proof. exact (nested_spaces_monotone p q q' M M' b y y'). Qed.
+
 Section Alg.
 Variable C : CRing.
 Notation qmat := (qmat C).
@@ -60,3 +67,5 @@ Print Assumptions C04_zero_rhs.
 Print Assumptions C04_spec_minimises.
 Print Assumptions C04_precond_same_solution.
 Print Assumptions C04_scaling_same_solution.
+
+Print Assumptions C04_history_never_increases.
